@@ -248,7 +248,24 @@ def runSplit (line : String) : String :=
     | none => "bad-op"
   | _ => "bad-op"
 
+/-! ### The emitting side: `(emit xSEP (ev xPAYLOAD…))` → the file content; `(json (ev (xMSG xPROP)…))` → n=N ok=true -/
+
+def runEmit (line : String) : String :=
+  match Sexp.parse line with
+  | some (.list [.atom "emit", sep, .list (.atom "ev" :: evs)]) =>
+    match nats? sep, evs.mapM nats? with
+    | some sep, some evs =>
+      let out := (evs.map (finishEvent sep)).flatten
+      let added := evs.filter fun e => !(sep.isSuffixOf e)
+      hexOfNats out ++ "\t" ++ (if evs.isEmpty then "trivial" else s!"added={min added.length 3}")
+    | _, _ => "bad-op"
+  | some (.list [.atom "json", .list (.atom "ev" :: evs)]) =>
+    match evs.mapM (fun e => match e with | .list [m, p] => (do pure (← m.str?, ← p.str?)) | _ => none) with
+    | some evs => s!"n={evs.length} ok=true\t" ++ (if evs.isEmpty then "trivial" else "json")
+    | none => "bad-op"
+  | _ => "bad-op"
+
 def streams : List (String × (String → String)) :=
-  [("c10", run)]
+  [("c10", run), ("c10_emit", runEmit)]
 
 end EmitModel.Driver.C10
